@@ -15,8 +15,8 @@
 (*             [repaired design]          link.recheck                      *)
 (*             RouteUnlinkX / DemonitorX:  unlink.check, unlink.remove       *)
 (*   terminator unregisterProcess / UnregisterName:                         *)
-(*             TDel  (table delete)   TDrain (CleanupTarget + one exit/down *)
-(*             message per drained consumer, delivered atomically)          *)
+(*             TDel  (table delete)   TDrain (CleanupTarget)   TNote (one    *)
+(*             exit/down message per drained consumer, delivered atomically)*)
 (* Code anchors: node/core.go RouteLinkX RouteMonitorX RouteTerminateX,     *)
 (* node/node.go unregisterProcess UnregisterName, gen/default_target_manager*)
 (***************************************************************************)
@@ -27,6 +27,7 @@ CONSTANTS
   Kind,          \* [Consumers -> {"link","monitor"}]
   Undo,          \* [Consumers -> BOOLEAN] removes its relation after a successful request
   TDel, TDrain,  \* names of the terminator's two yield points for this target kind
+  TNote,         \* yield point between the drain (CleanupTarget returned) and the delivery of the notifications
   StateChecked,  \* TRUE: the terminator marks the owner terminated before the table delete (Kill) and
                  \*       monitor requests by process id or name refuse a terminated process (RouteMonitorPID, RouteMonitorProcessID)
   Fix_LinkRace   \* TRUE = the request re-checks the table after adding the relation
@@ -38,15 +39,16 @@ VARIABLES
   lpc, lres, \* consumer pc, result of the request ("" while running)
   ures,      \* result of the removal ("" if none)
   tpc,       \* terminator pc
-  got        \* [Consumers -> number of exit/down notifications delivered]
+  got,       \* [Consumers -> number of exit/down notifications delivered]
+  pend       \* consumers drained by the terminator whose notification has not been sent yet
 
-vars == <<present, dying, rel, lpc, lres, ures, tpc, got>>
+vars == <<present, dying, rel, lpc, lres, ures, tpc, got, pend>>
 
 Init ==
   /\ present = TRUE /\ dying = FALSE /\ rel = {}
   /\ lpc = [c \in Consumers |-> "link.check"]
   /\ lres = [c \in Consumers |-> ""] /\ ures = [c \in Consumers |-> ""]
-  /\ tpc = "start" /\ got = [c \in Consumers |-> 0]
+  /\ tpc = "start" /\ got = [c \in Consumers |-> 0] /\ pend = {}
 
 AfterLink(c) == IF Undo[c] THEN "unlink.check" ELSE "done"
 
@@ -97,13 +99,18 @@ TSkip == tpc = "start" /\ tpc' = "skipped" /\ UNCHANGED <<present, dying, rel, l
 TDelete == tpc = TDel /\ present' = FALSE /\ tpc' = TDrain /\ UNCHANGED <<dying, rel, lpc, lres, ures, got>>
 TDrainAll ==
   /\ tpc = TDrain
-  /\ got' = [c \in Consumers |-> IF c \in rel THEN got[c] + 1 ELSE got[c]]
-  /\ rel' = {}
-  /\ tpc' = "done"
-  /\ UNCHANGED <<present, dying, lpc, lres, ures>>
+  /\ pend' = rel /\ rel' = {}
+  /\ tpc' = TNote
+  /\ UNCHANGED <<present, dying, lpc, lres, ures, got>>
+\* one exit/down message per drained consumer (delivery is atomic with this step)
+TNotify ==
+  /\ tpc = TNote
+  /\ got' = [c \in Consumers |-> IF c \in pend THEN got[c] + 1 ELSE got[c]]
+  /\ pend' = {} /\ tpc' = "done"
+  /\ UNCHANGED <<present, dying, rel, lpc, lres, ures>>
 
-LStep(c) == LCheck(c) \/ LAdd(c) \/ LRecheck(c) \/ UCheck(c) \/ URemove(c)
-TStep == TStart \/ TSkip \/ TDelete \/ TDrainAll
+LStep(c) == (LCheck(c) \/ LAdd(c) \/ LRecheck(c) \/ UCheck(c) \/ URemove(c)) /\ UNCHANGED pend
+TStep == ((TStart \/ TSkip \/ TDelete) /\ UNCHANGED pend) \/ TDrainAll \/ TNotify
 Next == (\E c \in Consumers : LStep(c)) \/ TStep
 Spec == Init /\ [][Next]_vars
 
